@@ -450,6 +450,32 @@ func genC07(g *gen) {
 	}
 	g.line("Definition gen_wsd_step : N := %d.", wsdStep)
 
+	// health.ShellStreamAdapter: capacity of the receive channel and the
+	// drop-after-timeout branch of PushReceive
+	adapterCap, adapterDrops := int64(0), false
+	if fd := findFuncInDir("internal/health", "", "NewShellStreamAdapter"); fd != nil && fd.Body != nil {
+		ast.Inspect(fd.Body, func(n ast.Node) bool {
+			if kv, ok := n.(*ast.KeyValueExpr); ok && src(kv.Key) == "receive" {
+				if call, ok := kv.Value.(*ast.CallExpr); ok && src(call.Fun) == "make" && len(call.Args) == 2 {
+					if v, ok := c07Eval(call.Args[1], env); ok {
+						adapterCap = v
+					}
+				}
+			}
+			return true
+		})
+	}
+	if fd := findFuncInDir("internal/health", "ShellStreamAdapter", "PushReceive"); fd != nil && fd.Body != nil {
+		ast.Inspect(fd.Body, func(n ast.Node) bool {
+			if cc, ok := n.(*ast.CommClause); ok && cc.Comm != nil && strings.Contains(src(cc.Comm), "time.After(") && len(cc.Body) == 0 {
+				adapterDrops = true
+			}
+			return true
+		})
+	}
+	g.line("Definition gen_adapter_capacity : N := %d.", adapterCap)
+	g.line("Definition gen_adapter_drops_when_full : bool := %s.", coqBool(adapterDrops))
+
 	var items []string
 	for _, r := range rows {
 		items = append(items, fmt.Sprintf("(%s, (%d, %d, %s))", coqString(r.name), r.buf, r.pre, coqBool(r.split)))
